@@ -13,6 +13,11 @@ Theorem C20_le_bytes_minimal : forall n, 0 <= n -> le_bytes n = [] \/ last (le_b
 Proof. exact le_bytes_top. Qed.
 Print Assumptions C20_le_bytes_minimal.
 
+(** the byte strings used here are C07's specification of UBig::to_le_bytes / from_le_bytes *)
+Theorem C20_le_bytes_is_c07_spec : forall n bs, le_bytes n = to_le_bytes_spec n /\ value 8 bs = le_value bs.
+Proof. exact le_bytes_c07_spec. Qed.
+Print Assumptions C20_le_bytes_is_c07_spec.
+
 (** regrouping bytes into words of k bytes (le_bytes_to_<int>_array), any k > 0: well-formed words,
     same value, length = ceil(bytes / k), top word non-zero when the top byte is *)
 Theorem C20_regroup : forall k : nat, (0 < k)%nat -> forall bs, wf 8 bs ->
